@@ -8,7 +8,7 @@ from _leg import Leg, THOROUGH
 import trio, stackscope
 leg = Leg("c14_trio", "task trees depth<=2 x fan<=2 x nurseries 0..2 x {body, __aexit__} x 4 body endings; thread hops depth 0..2; "
                       "non-trivial = tree with >= 1 nursery; distinct by spec")
-ENDINGS = ["plain", "tryexcept", "tryfinally", "condreturn", "tryexcept_raise"]
+ENDINGS = ["plain", "tryexcept", "tryfinally", "condreturn", "tryexcept_raise", "loopbreak", "tryraise_handled"]
 def make_task_src(name, nnurs, block_in, ending, nchildren_per_nursery):
     """source of an async function that opens nnurs nested nurseries, starts children in each, then blocks in body or falls into __aexit__"""
     L=[f"async def {name}(spec, started):"]
@@ -24,6 +24,9 @@ def make_task_src(name, nnurs, block_in, ending, nchildren_per_nursery):
         elif ending=="tryexcept": L+= [f"{ind}try:", f"{ind}    {body}", f"{ind}except KeyError:", f"{ind}    pass"]
         elif ending=="tryexcept_raise": L+= [f"{ind}try:", f"{ind}    {body}", f"{ind}except KeyError:", f"{ind}    raise"]
         elif ending=="tryfinally": L+= [f"{ind}try:", f"{ind}    {body}", f"{ind}finally:", f"{ind}    pass"]
+        # endings whose exit sequence is reached only through unconditional jumps (added after seed C14-no-fallthrough-test-hoisted-to-continue)
+        elif ending=="loopbreak": L+= [f"{ind}{body}", f"{ind}polls = 2", f"{ind}while True:", f"{ind}    polls -= 1", f"{ind}    if polls < 0:", f"{ind}        break"]
+        elif ending=="tryraise_handled": L+= [f"{ind}{body}", f"{ind}try:", f"{ind}    raise KeyError(spec)", f"{ind}except KeyError:", f"{ind}    polls = None"]
         elif ending=="condreturn": L+= [f"{ind}{body}", f"{ind}if spec.get('never'):", f"{ind}    return 5"]
     return "\n".join(L)+"\n"
 FUNCS={}
